@@ -232,6 +232,42 @@ fn stream_family(tier: &Tier, rng: &mut Rng, w: usize, nw: usize, nrand: usize) 
             idx += 1;
         }
     }
+    // every escape payload with four equal bytes, and all payloads over a wider alphabet, inside a
+    // running transmission and followed by the rest of a canonical frame (what an attacker would send
+    // if some other escape code were treated as a transmission start)
+    let wide: [u8; 8] = [0x00, 0x01, 0x02, 0x03, 0x1a, 0x1b, 0xaa, 0xff];
+    let mut k = 0usize;
+    let mut quads: Vec<[u8; 4]> = (0..=255u8).map(|x| [x; 4]).collect();
+    if tier.thorough {
+        for a in wide {
+            for b in wide {
+                for c in wide {
+                    for d in wide {
+                        quads.push([a, b, c, d]);
+                    }
+                }
+            }
+        }
+    } else {
+        for _ in 0..256 {
+            quads.push([*rng.pick(&wide), *rng.pick(&wide), *rng.pick(&wide), *rng.pick(&wide)]);
+        }
+    }
+    for q in quads {
+        if k % nw == w {
+            let m = vec![0x76u8, 0x05, 0x12, 0x34];
+            let f = spec::frame(&m);
+            for junk in [&[][..], &[0xaa][..], &[0x11, 0x22, 0x33, 0x44][..]] {
+                let mut s = spec::START.to_vec();
+                s.extend_from_slice(junk);
+                s.extend_from_slice(&[0x1b; 4]);
+                s.extend_from_slice(&q);
+                s.extend_from_slice(&f[8..]);
+                v.push(s);
+            }
+        }
+        k += 1;
+    }
     for _ in 0..nrand / nw {
         v.push(adversarial_stream(rng, 10));
     }
